@@ -705,5 +705,5 @@ def run(run: Run):
     from .common import shared_mechanisms as _shared
     _shared(run, 'C14', 12, ['stored-values', 'fresh-parse'])
     from .common import shared_mechanisms as _shared_f
-    _shared_f(run, 'C14', 14, ['formulas'])
+    _shared_f(run, 'C14', 14, ['formulas', 'no-history'])
     return INFO
